@@ -8,10 +8,8 @@ WITNESSES = [
     dict(id="c06-cascade-le", prop="C06", file=S, expect="R06a",
          old="                if lower_names < upper_names:", new="                if lower_names <= upper_names:"),
     dict(id="c06-cascade-name-number-lost", prop="C06", file=S, expect="R06a",
-         old="""                lower_names = [(int(s.name[1:]) if s.name[1:] else 0,
-                               s.name[0]) for s in lower]
-                upper_names = [(int(s.name[1:]) if s.name[1:] else 0,
-                               s.name[0]) for s in upper]""",
+         old="""                lower_names = [sort_idx_canonical(s)[2:] for s in lower]
+                upper_names = [sort_idx_canonical(s)[2:] for s in upper]""",
          new="""                lower_names = [s.name[0] for s in lower]
                 upper_names = [s.name[0] for s in upper]"""),
     dict(id="c06-sign-lost", prop="C06", file=S, expect="R06c",
@@ -170,17 +168,18 @@ WITNESSES = [
             if spin_l < spin_u:
                 return True
             elif spin_l == spin_u:  # diagonal spin block
-                # compare the names of indices
-                lower_names = [(int(s.name[1:]) if s.name[1:] else 0,
-                               s.name[0]) for s in lower]
-                upper_names = [(int(s.name[1:]) if s.name[1:] else 0,
-                               s.name[0]) for s in upper]
+                # compare the names of indices (number, letter). Different
+                # indices that share number and letter ('i' and 'i0' or
+                # multiple unregistered indices of the same name) are
+                # distinguished as in sort_idx_canonical.
+                lower_names = [sort_idx_canonical(s)[2:] for s in lower]
+                upper_names = [sort_idx_canonical(s)[2:] for s in upper]
                 if lower_names < upper_names:
                     return True
         return False""",
          new="""        def group_key(group):
             return ([s.space[0] for s in group], [s.spin for s in group],
-                    [(int(s.name[1:] or 0), s.name[0]) for s in group])
+                    [(int(s.name[1:] or 0), s.name[0], s.dummy_index) for s in group])
         return group_key(lower) < group_key(upper)"""),
     # sign as arithmetic factor instead of a branch
     dict(id="c06-ok-new-sign-factor", prop="C06", file=S, expect=None,
@@ -230,6 +229,10 @@ WITNESSES = [
             if bra_ket_sym not in [S.One, S.NegativeOne]:
                 raise Inputerror("Invalid bra ket symmetry given "
                                  f"{bra_ket_sym}. Valid are 0, 1 or -1.")
+            # bra-ket antisymmetry forces the diagonal to vanish:
+            # d^{pq}_{pq} = - d^{pq}_{pq} = 0
+            if bra_ket_sym is S.NegativeOne and list(upper) == list(lower):
+                return S.Zero
             if cls._need_bra_ket_swap(upper, lower):
                 upper, lower = lower, upper  # swap
                 if bra_ket_sym is S.NegativeOne:  # add another -1
@@ -237,6 +240,8 @@ WITNESSES = [
         # import all quantities to sympy""",
          """        bra_ket_sym = sympify(bra_ket_sym)
         upper, lower, swapped = cls._bra_ket_canonical(upper, lower, bra_ket_sym)
+        if swapped is None:
+            return S.Zero
         if swapped and bra_ket_sym is S.NegativeOne:  # add another -1
             sign_u += 1
         # import all quantities to sympy"""),
@@ -252,6 +257,8 @@ WITNESSES = [
         if bra_ket_sym not in [S.One, S.NegativeOne]:
             raise Inputerror("Invalid bra ket symmetry given "
                              f"{bra_ket_sym}. Valid are 0, 1 or -1.")
+        if bra_ket_sym is S.NegativeOne and list(upper) == list(lower):
+            return upper, lower, None  # the diagonal vanishes
         if cls._need_bra_ket_swap(upper=upper, lower=lower):
             return lower, upper, True
         return upper, lower, False
@@ -323,6 +330,43 @@ class SymbolicTensor(Expr):
          "def _term_with_braket_sym(term):\n    factors = []\n    for o in term.objects:\n        if not isinstance(o.base, SymbolicTensor):  # nothing to canonicalise\n            factors.append(o.sympy)\n        else:\n            factors.append(o._apply_tensor_braket_sym(return_sympy=True))\n    return Mul(*factors)\n\n\nclass Expr(Container):\n    \"\"\"\n    Wrapper for an algebraic expression."),
         ("        expr_with_sym = Add(*[t._apply_tensor_braket_sym(return_sympy=True)\n                              for t in self.terms])",
          "        expr_with_sym = Add(*[_term_with_braket_sym(t) for t in self.terms])")]),
+    # ------------------------------------------------------------------ round 5: repaired defects F32, F33
+    dict(id="c06-F32-revert", prop="C06", file=S, expect=["R06b", "R06c"], edits=[("""            # bra-ket antisymmetry forces the diagonal to vanish:
+            # d^{pq}_{pq} = - d^{pq}_{pq} = 0
+            if bra_ket_sym is S.NegativeOne and list(upper) == list(lower):
+                return S.Zero
+""", "")] * 2),
+    dict(id="c06-F32-revert-symmetric-only", prop="C06", file=S, expect=["R06b", "R06c"],
+         old="""            # bra-ket antisymmetry forces the diagonal to vanish:
+            # d^{pq}_{pq} = - d^{pq}_{pq} = 0
+            if bra_ket_sym is S.NegativeOne and list(upper) == list(lower):
+                return S.Zero
+            if cls._need_bra_ket_swap(upper, lower):
+                upper, lower = lower, upper  # swap
+                if bra_ket_sym is S.NegativeOne:
+                    negative_sign = True""",
+         new="""            if cls._need_bra_ket_swap(upper, lower):
+                upper, lower = lower, upper  # swap
+                if bra_ket_sym is S.NegativeOne:
+                    negative_sign = True"""),
+    dict(id="c06-ok-F32-twin", prop="C06", file=S, expect=None, edits=[
+        ("            if bra_ket_sym is S.NegativeOne and list(upper) == list(lower):\n                return S.Zero\n",
+         "            diagonal = len(upper) == len(lower) and all(u is l for u, l in zip(upper, lower))\n            if diagonal and bra_ket_sym == -1:\n                return S.Zero\n")] * 2),
+    dict(id="c06-F33-revert", prop="C06", file=S, expect=["R06a", "R06b"],
+         old="""                lower_names = [sort_idx_canonical(s)[2:] for s in lower]
+                upper_names = [sort_idx_canonical(s)[2:] for s in upper]""",
+         new="""                lower_names = [(int(s.name[1:]) if s.name[1:] else 0,
+                               s.name[0]) for s in lower]
+                upper_names = [(int(s.name[1:]) if s.name[1:] else 0,
+                               s.name[0]) for s in upper]"""),
+    dict(id="c06-ok-F33-twin", prop="C06", file=S, expect=None,
+         old="""                lower_names = [sort_idx_canonical(s)[2:] for s in lower]
+                upper_names = [sort_idx_canonical(s)[2:] for s in upper]""",
+         new="""                def name_key(s):
+                    number = int(s.name[1:]) if s.name[1:] else 0
+                    return (number, s.name[0], s.dummy_index)
+                lower_names = list(map(name_key, lower))
+                upper_names = list(map(name_key, upper))"""),
     # ------------------------------------------------------------------ breaking witnesses for the new checks
     dict(id="c06-amplitude-own-ordering", prop="C06", file=S, expect=["R06a", "R06b"],
          old="""    @property
@@ -346,6 +390,10 @@ class SymbolicTensor(Expr):
             if bra_ket_sym not in [S.One, S.NegativeOne]:
                 raise Inputerror("Invalid bra ket symmetry given "
                                  f"{bra_ket_sym}. Valid are 0, 1 or -1.")
+            # bra-ket antisymmetry forces the diagonal to vanish:
+            # d^{pq}_{pq} = - d^{pq}_{pq} = 0
+            if bra_ket_sym is S.NegativeOne and list(upper) == list(lower):
+                return S.Zero
             if cls._need_bra_ket_swap(upper, lower):
                 upper, lower = lower, upper  # swap
                 if bra_ket_sym is S.NegativeOne:  # add another -1
@@ -355,6 +403,8 @@ class SymbolicTensor(Expr):
             if bra_ket_sym not in [S.Zero, S.One, S.NegativeOne]:
                 raise Inputerror("Invalid bra ket symmetry given "
                                  f"{bra_ket_sym}. Valid are 0, 1 or -1.")
+            if bra_ket_sym is S.NegativeOne and list(upper) == list(lower):
+                return S.Zero
             if len(upper) == len(lower) and cls._need_bra_ket_swap(upper, lower):
                 upper, lower = lower, upper  # swap
                 if bra_ket_sym is S.NegativeOne:  # add another -1
